@@ -5,6 +5,7 @@ import (
 	"io"
 	"math/rand"
 	"os"
+	"os/exec"
 	"path/filepath"
 	"reflect"
 	"sort"
@@ -699,6 +700,23 @@ func (c *c18) runStrace(r *core.R, w *c18World, p c18Params) {
 			return []string{parExe, "v", filepath.Join(setDir, w.idxName)}
 		}
 		return []string{parExe, "r", filepath.Join(setDir, w.idxName)}
+	}
+	if p.Op == "create" {
+		// Failures that need no injection: an input that does not exist, or lies
+		// below a regular file (ENOTDIR), among good ones. Create has to fail.
+		for _, bad := range []string{"vanished.bin", w.dataRel[0] + "/below-a-file.bin"} {
+			os.RemoveAll(work)
+			copyTree(w.tmpl, work)
+			a := args()
+			a = append(a, filepath.Join(setDir, bad))
+			cmd := exec.Command(a[0], a[1:]...)
+			cmd.Dir = work
+			out, err := cmd.CombinedOutput()
+			r.Count("create_with_unreadable_input_runs", 1)
+			if err == nil {
+				r.Violate("io-error-swallowed|create|missing-input", "%s create: the listed input %q cannot be read, yet par exited 0; output tail: %s", p.Fmt, bad, tailStr(string(out), 400))
+			}
+		}
 	}
 	type inj struct{ call, errno string }
 	injs := []inj{{"openat", "EIO"}, {"openat", "EACCES"}, {"openat", "EMFILE"}, {"read", "EIO"}, {"write", "ENOSPC"}, {"write", "EIO"}, {"getdents64", "EIO"}, {"fstat", "EIO"}, {"newfstatat", "EIO"}, {"close", "EIO"}}
